@@ -211,7 +211,7 @@ class Gen:
         if depth <= 0 or self.rng.random() < 0.12:
             return self.leaf(shape)
         kinds = ["un", "bin", "bin", "red", "red", "sub", "sub", "stack", "cat", "lam", "getitem", "outred", "reshape", "einsum",
-                 "opstack", "getslice", "slicesub", "indep", "cmp", "lazyred", "matmul"]
+                 "opstack", "getslice", "slicesub", "indep", "cmp", "lazyred", "matmul", "align"]
         if self.allow is not None:
             kinds = [k for k in kinds if k in self.allow] or ["bin"]
         kind = self.choice(kinds)
@@ -229,6 +229,17 @@ class Gen:
         return self.leaf(shape)
 
     def leaf(self, shape):
+        pool = self.__dict__.setdefault("_leaf_pool", {})
+        if pool.get(shape) and self.rng.random() < 0.08:
+            return self.choice(pool[shape])      # the very same operand object used again
+        t = self._leaf(shape)
+        if t[0] == "ten":
+            pool.setdefault(shape, []).append(t)
+            if len(pool[shape]) > 6:
+                pool[shape].pop(0)
+        return t
+
+    def _leaf(self, shape):
         r = self.rng.random()
         if r < self.real_vars:
             if self.rng.random() < 0.5 and shape == ():
@@ -298,6 +309,24 @@ class Gen:
         else:
             l, r = self.real(depth - 1, sl), self.real(depth - 1, sr)
         return ("bin", "matmul", (), l, r)
+
+    def k_align(self, depth, shape):
+        """x.align(names): a permutation of the inputs (a lazy Align node when x is not a Tensor), then an operation on it"""
+        e = self.real(depth - 1, shape)
+        try:
+            inputs, _ = typecheck(e)
+        except (IllTyped, Unsupported):
+            return None
+        names = list(inputs)
+        if len(names) < 2:
+            return None
+        perm = self.permuted(names)
+        a = ("align", e, tuple(perm))
+        other = self.real(depth - 1, shape if self.rng.random() < 0.6 else ())
+        op = self.choice(["sub", "truediv", "add", "mul"] if self.mode in ("free", "arith") else self.ops_bin())
+        if op == "truediv":
+            return ("bin", op, (), other, ("un", "exp", (), a)) if self.rng.random() < 0.6 else ("bin", op, (), a, ("un", "exp", (), other))
+        return ("bin", op, (), other, a) if self.rng.random() < 0.6 else ("bin", op, (), a, other)
 
     def k_cmp(self, depth, shape):
         # a comparison (bounded-integer valued) gating a real expression
